@@ -35,7 +35,12 @@ PARTIAL = [
     "irregular covariance: the pooling / counting of co-observed pairs is modelled exactly (smooth=False); the smoothed mean subtracted by center=True is a parameter",
     "'numerically unchanged under offsets' is proved as the explicit bound |c| s (2 r + |c| s), s = |sum d| <= 1e-4, r = sqrt(estimate); float rounding of the windows is only sampled",
 ]
-TRUSTED_EXTRA = ["translator harness/c09.py:translate (ast parse of the DIFF_SEQUENCES literal, ~40 lines)"]
+TRUSTED_EXTRA = [
+    "translator harness/c09.py:translate (ast parse of the DIFF_SEQUENCES literal, ~40 lines)",
+    "translator harness/c09_translate.py (syntax only: literals, comparison operators, .T, keyword arguments, forwarded names of "
+    "_estimate_noise_variance, noise_variance x3, mean, covariance -> Generated/StatsFormulas.lean; falls back on harness/c09_*_reference.lean "
+    "when the source shape is not recognised)",
+]
 
 S_MAX = Fraction(1, 10000)  # proved bound on |sum d| (C09.diffSeq_table)
 SSQ_TOL = Fraction(11, 100000)  # proved bound on |sum d^2 - 1|
@@ -100,17 +105,56 @@ def lean_source(table):
     return "\n".join(lines)
 
 
-def translate():
-    path = os.path.join(common.REPO, "FDApy", "misc", "utils.py")
-    try:
-        src = lean_source(parse_diff_sequences(path))
-    except (ValueError, SyntaxError, OSError) as e:
-        raise InfraError(f"translator: cannot read DIFF_SEQUENCES from {path}: {e}")
-    old = open(GEN_FILE).read() if os.path.exists(GEN_FILE) else None
-    if old != src:
-        os.makedirs(os.path.dirname(GEN_FILE), exist_ok=True)
-        with open(GEN_FILE, "w") as fh:
+HERE = os.path.dirname(os.path.abspath(__file__))
+GEN_FORMULAS = os.path.join(common.LEAN_DIR, "FDAModel", "Generated", "StatsFormulas.lean")
+REF_DIFFSEQ = os.path.join(HERE, "c09_diffseq_reference.lean")
+REF_FORMULAS = os.path.join(HERE, "c09_statsformulas_reference.lean")
+TRANSLATOR = {}
+
+
+def _write_if_changed(path, src):
+    if not os.path.exists(path) or open(path).read() != src:
+        os.makedirs(os.path.dirname(path), exist_ok=True)
+        with open(path, "w") as fh:
             fh.write(src)
+
+
+def translate():
+    """Regenerate Generated/DiffSeq.lean (the table) and Generated/StatsFormulas.lean (constants, operators, guards, axes of the
+    estimators and transformations) from what the source says now.  An unrecognised source shape is NOT an alarm: the reference
+    translation kept beside the translator is used (not what an earlier run left in Generated/), a note is printed and put into the
+    evidence; only a successful translation can break `C09.diffSeq_table` / `C09.source_*` / `C10.source_transform_formulas`."""
+    import c09_translate
+
+    utils = os.path.join(common.REPO, "FDApy", "misc", "utils.py")
+    fdpy = os.path.join(common.REPO, "FDApy", "representation", "functional_data.py")
+    TRANSLATOR.clear()
+    for key, ref, gen, run in (
+        ("diffseq", REF_DIFFSEQ, GEN_FILE, lambda: lean_source(parse_diff_sequences(utils))),
+        ("formulas", REF_FORMULAS, GEN_FORMULAS, lambda: _formulas(c09_translate, utils, fdpy)),
+    ):
+        try:
+            src = run()
+            TRANSLATOR.setdefault(key, "translated")
+        except (ValueError, SyntaxError, IndexError, AttributeError, KeyError, TypeError) as e:
+            TRANSLATOR[key] = f"translator: source shape not recognised ({str(e)[:120]}), tie rests on the correspondence only"
+            print("note:", key, TRANSLATOR[key])
+            src = open(ref).read()
+        except OSError as e:
+            raise InfraError(f"translator: cannot read the source: {e}")
+        _write_if_changed(gen, src)
+
+
+def _formulas(c09_translate, utils, fdpy):
+    x = c09_translate.parse(utils, fdpy)
+    TRANSLATOR["constants"] = x
+    return c09_translate.lean_source(x)
+
+
+def extra_coverage(cases, impls, models):
+    return dict(translator=dict(TRANSLATOR, files=["lean/FDAModel/Generated/DiffSeq.lean", "lean/FDAModel/Generated/StatsFormulas.lean"],
+                                theorems="C09.diffSeq_table, C09.source_noise_formulas, C09.source_cov_formulas, C09.coded_noise_window, "
+                                         "C09.coded_order_guard, C09.coded_noise_dataset, C09.coded_cov"))
 
 
 # --------------------------------------------------------------------------
